@@ -37,7 +37,9 @@ JO(xs) == [t |-> "o", v |-> "", items |-> xs]
 DigitStrs == {"7", "0"}
 Atoms == {S("a"), S("7"), S(""), I("0"), I("7"), N}
 \* keys a dict may have (hashable): plain, numeric-string, int, None, tuples; "$" is reserved
-DKeys == {S("a"), S("7"), I("7"), N, T(<< >>), T(<<I("0"), S("a")>>), S("$")}
+\* ... and strings that int() would parse although str.isdigit() is false ("+0", "-1", "1_0", " 7")
+DKeys == {S("a"), S("7"), I("7"), N, T(<< >>), T(<<I("0"), S("a")>>), S("$"),
+          S("+0"), S("-1"), S("1_0"), S(" 7")}
 
 SeqsUpTo2(X) == {<< >>} \cup { <<x>> : x \in X } \cup { <<x, y>> : x \in X, y \in X }
 Entries(V) == {<< >>} \cup { << <<k, x>> >> : k \in DKeys, x \in V }
